@@ -765,6 +765,58 @@ class M(gen_builder.T):
                 f"/-- `{cls}.{name}`: leaving the context - the `finally` block, whatever the body did -/\n"
                 f"def {cls}.{name}_exit (self : BSt){sig} (h : Rat) : BSt × Option Err :=\n{halves[1]}"]
 
+    # ------------------------------------------------------------ the constructors
+    INIT_CORE = {"_current_axes": ("Point.unknown()", "Pt.unknown"), "_current_params": ("ParamsDict()", "([] : Builder.Params)"),
+                 "_distance_mode": ("DistanceMode.ABSOLUTE", "DistanceMode.ABSOLUTE")}
+    INIT_BUILDER = {"_state": ("GState()", None), "_hooks": ("[]", "([] : List Hook)")}
+
+    def init_def(self):
+        """`GCodeCore.__init__` / `GCodeBuilder.__init__`: every tracked field is assigned once, in the constructor, to a fresh
+        value of its own (`Point.unknown()`, `ParamsDict()`, `[]`, `GState()` are calls / displays evaluated per object); a tracked
+        field declared on the class - shared by all objects until first assigned - is refused."""
+        tracked = set(self.INIT_CORE) | set(self.INIT_BUILDER)
+        for cname, table in (("GCodeCore", self.core), ("GCodeBuilder", self.methods)):
+            tree = ast.parse((self.repo / "gscrib" / ("gcode_core.py" if cname == "GCodeCore" else "gcode_builder.py")).read_text())
+            cls = [n for n in tree.body if isinstance(n, ast.ClassDef) and n.name == cname][0]
+            for n in cls.body:
+                tg = ([t for t in n.targets] if isinstance(n, ast.Assign) else [n.target] if isinstance(n, ast.AnnAssign) else [])
+                for t in tg:
+                    if isinstance(t, ast.Name) and t.id in tracked:
+                        fail(n, f"class-level `{t.id}` in {cname}: tracked fields are expected to be assigned per object in __init__")
+        got = {}
+        for cname, table, want in (("GCodeCore", self.core, self.INIT_CORE), ("GCodeBuilder", self.methods, self.INIT_BUILDER)):
+            init = table.get("__init__")
+            if init is None:
+                raise Unsupported(f"{cname}.__init__ not found")
+            if cname == "GCodeBuilder":
+                first = [b for b in init.body if not (isinstance(b, ast.Expr) and isinstance(b.value, ast.Constant))][0]
+                if ast.unparse(first) != "super().__init__(*args, **kwargs)":
+                    fail(init, "GCodeBuilder.__init__ is expected to start with super().__init__(*args, **kwargs)")
+            for n in ast.walk(init):
+                if isinstance(n, (ast.Assign, ast.AnnAssign, ast.AugAssign)):
+                    tg = n.targets if isinstance(n, ast.Assign) else [n.target]
+                    for t in tg:
+                        if isinstance(t, ast.Attribute) and isinstance(t.value, ast.Name) and t.value.id == "self" and t.attr in tracked:
+                            if t.attr not in want or t.attr in got or isinstance(n, ast.AugAssign) or n not in init.body:
+                                fail(n, f"{cname}.__init__: unexpected assignment to self.{t.attr}")
+                            src = ast.unparse(n.value)
+                            if src != want[t.attr][0]:
+                                fail(n, f"{cname}.__init__: self.{t.attr} = {src} (expected {want[t.attr][0]})")
+                            got[t.attr] = want[t.attr][1]
+                if isinstance(n, ast.Call) and isinstance(n.func, ast.Name) and n.func.id in ("setattr", "vars"):
+                    fail(n, f"{cname}.__init__: {n.func.id}()")
+        missing = tracked - set(got)
+        if missing:
+            raise Unsupported(f"__init__ does not assign {sorted(missing)}")
+        lit = (f"{{ state := g, _distance_mode := {got['_distance_mode']}, _current_axes := {got['_current_axes']}, "
+               f"_current_params := {got['_current_params']}, _hooks := {got['_hooks']}, out := [], calls := [] }}")
+        return ("/-- `GCodeCore.__init__` then `GCodeBuilder.__init__`: the tracked fields of a new builder, each assigned in the constructor to a\n"
+                "    fresh value of its own (no tracked field is declared on the class); `GState()` is `GState.init` of Gen/StateSrc.lean -/\n"
+                "def GCodeBuilder.init : BSt × Option Err :=\n"
+                "  match GState.init with\n"
+                f"  | (g, some e) => ({lit}, some e)\n"
+                f"  | (g, none) => ({lit}, none)\n")
+
     def lean_ty_m(self, ty):
         return {"VParams": "VParams", "MP": "MP", "Pt": "Pt", "Hook": "Hook"}.get(ty) or self.lean_ty(ty)
 
@@ -802,6 +854,7 @@ class M(gen_builder.T):
         out.append("/-- what a hook reads off the state object it is handed: `state.extrusion_mode`, `state.get_parameter(\"E\")` -/")
         out.append("def hookEnv (g : GState) : HookEnv :=\n  ⟨decide (g._current_extrusion_mode = ExtrusionMode.RELATIVE), (g._current_params.get \"E\").getD 0⟩\n")
         out += meths
+        out.append(self.init_def())
         out.append("def translated : List String := [" + ", ".join(f'"{c}.{n}"' for c, n in METHODS) + "]\n")
         out.append("end GscribModel.Gen.MotionSrc")
         return "\n".join(out) + "\n"
